@@ -110,9 +110,9 @@ var structuredLeaves = []leafSpec{
 	{"[]time.Duration", 1, "predeclared", "", "", ""},
 	{"map[string]time.Duration", 1, "predeclared", "", "", ""},
 	// containers whose elements are pointers: valid input may hold nil elements
-	{"[]*time.Duration", 3, "ptr-elem", "", "", ""},
-	{"map[string]*time.Duration", 3, "ptr-elem", "", "", ""},
-	{"[2]*time.Duration", 2, "ptr-elem", "", "", ""},
+	{"[]*time.Duration", 5, "ptr-elem", "", "", ""},
+	{"map[string]*time.Duration", 4, "ptr-elem", "", "", ""},
+	{"[2]*time.Duration", 3, "ptr-elem", "", "", ""},
 	{"*[]time.Duration", 2, "ptr-collection", "", "", ""},
 	{"*[]*time.Duration", 1, "ptr-elem", "", "", ""},
 	{"**time.Duration", 1, "double-pointer", "", "", ""},
